@@ -1812,6 +1812,73 @@ func genCodec(repo, out string) {
 		d = fmt.Sprintf("/-- UNTRANSLATABLE: %s -/\ndef encodeData : Unit := ()\n", strings.ReplaceAll(err.Error(), "-/", "- /"))
 	}
 	sb.WriteString(d + "\n")
+	// Data.Decode
+	{
+		sb.WriteString("/-- `r.Read(binary.LittleEndian, &x)` for a `w`-byte unsigned integer through the sticky error reader: nothing is read once an\n    error occurred; a short read is an error -/\n")
+		sb.WriteString("def rdN (w : Nat) (reader : Bytes) (rerr : Bool) : Nat × Bytes × Bool :=\n  if rerr then (0, reader, true) else match decLE w reader with | some (v, rest) => (v, rest, false) | none => (0, reader, true)\n\n")
+		sb.WriteString("/-- the same for a byte slice of length `n` -/\n")
+		sb.WriteString("def rdB (n : Nat) (reader : Bytes) (rerr : Bool) : Bytes × Bytes × Bool :=\n  if rerr then ([], reader, true) else if reader.length < n then ([], reader, true) else (reader.take n, reader.drop n, false)\n\n")
+		fdd := findFunc(p, "Data", "Decode")
+		rn := func(v string, w string) (string, func(string) string) {
+			return "r.Read(binary.LittleEndian, &" + v + ")", func(tail string) string {
+				return "(let x := rdN " + w + " reader rerr; let " + v + " := x.1; let reader := x.2.1; let rerr := x.2.2; " + tail + ")"
+			}
+		}
+		rb := func(v string, n string) (string, func(string) string) {
+			return "r.Read(binary.LittleEndian, &" + v + ")", func(tail string) string {
+				return "(let x := rdB " + n + " reader rerr; let " + v + " := x.1; let reader := x.2.1; let rerr := x.2.2; " + tail + ")"
+			}
+		}
+		wr := map[string]func(string) string{}
+		for _, kv := range [][2]string{{"lcp", "2"}, {"suffixLen", "2"}, {"valueLen", "2"}, {"tombstone", "1"}, {"version", "8"}} {
+			k, f := rn(kv[0], kv[1])
+			wr[k] = f
+		}
+		for _, kv := range [][2]string{{"suffix", "suffixLen"}, {"value", "valueLen"}} {
+			k, f := rb(kv[0], kv[1])
+			wr[k] = f
+		}
+		spd := transSpec{
+			leanName: "decodeData",
+			binders:  "(decomp : Bytes → Option Bytes) (data : Bytes) (entries0 : List (Bytes × Bytes × Bool × Nat))",
+			retType:  "Option (List (Bytes × Bytes × Bool × Nat))",
+			exprMap: map[string]string{"err != nil": "err", "bytes.NewReader(buf.Bytes())": "buf", "reader.Len() > 0": "(decide (0 < reader.length))",
+				"r.Error() != nil": "rerr", "r.Error()": "RERR", "prevKey[:lcp] + string(suffix)": "(prevKey.take lcp ++ suffix)", "int64(version)": "version",
+				"d.Entries": "entries"},
+			state: []string{"reader", "rerr", "prevKey", "d.Entries"}, stateLn: []string{"reader", "rerr", "prevKey", "entries"},
+			stateTy:  []string{"Bytes", "Bool", "Bytes", "List (Bytes × Bytes × Bool × Nat)"},
+			zero:     map[string]string{"string": "([] : Bytes)", "uint16": "(0 : Nat)", "uint8": "(0 : Nat)", "uint64": "(0 : Nat)"},
+			litTuple: true, loopFuel: "(((decomp data).getD []).length + 1)",
+			binds: map[string][][2]string{"bufferpool.Pool.Get()": {},
+				"utils.Decompress(bytes.NewReader(data), buf)": {{"buf", "((decomp data).getD [])"}, {"err", "(decomp data).isNone"}}},
+			wraps: wr,
+			skipStmt: func(st ast.Stmt) bool {
+				s := goStr(st)
+				return strings.HasPrefix(s, "defer bufferpool.Pool.Put(") || s == "r := utils.NewErrorReader(reader)" ||
+					s == "suffix := make([]byte, suffixLen)" || s == "value := make([]byte, valueLen)"
+			},
+			ret: func(vals []string, st []string) string {
+				if len(vals) == 1 && vals[0] == "nil" {
+					return "some entries"
+				}
+				return "none"
+			},
+			fallOff:  func(st []string) string { return "some entries" },
+			panicVal: "none",
+		}
+		dd := ""
+		errd := fmt.Errorf("Data.Decode not found")
+		if fdd != nil {
+			t := &translator{spec: spd}
+			body := t.stmts(fdd.Body.List, func() string { return "some entries" }, "", "")
+			errd = t.err
+			dd = fmt.Sprintf("def %s %s : %s :=\n  let reader : Bytes := []\n  let rerr : Bool := false\n  let prevKey : Bytes := []\n  let entries := entries0\n  %s\n", spd.leanName, spd.binders, spd.retType, body)
+		}
+		if errd != nil {
+			dd = fmt.Sprintf("/-- UNTRANSLATABLE: %s -/\ndef decodeData : Unit := ()\n", strings.ReplaceAll(errd.Error(), "-/", "- /"))
+		}
+		sb.WriteString(dd + "\n")
+	}
 	sb.WriteString("end GenCodec\n")
 	if err := os.WriteFile(out, []byte(sb.String()), 0644); err != nil {
 		panic(err)
